@@ -17,12 +17,17 @@ package gmtls
 //   5. VerifParseMessage: canonical field printing of the handshake message parsers (C15 PM cases)
 //   6. VerifMarshalMessage: marshal() of a message built from canonical field strings (C15 PW cases)
 //   7. VerifPickSignatureAlgorithm and the digest selection hooks (C08 PA / PD cases)
+//   8. ecdheKeyAgreement ServerKeyExchange at byte level (C15 PE cases)
 
 import (
 	"crypto"
 	"crypto/ecdsa"
 	"crypto/elliptic"
 	"crypto/rsa"
+	"crypto/sha256"
+	"encoding/asn1"
+	"errors"
+	"io"
 	"math/big"
 	"net"
 	"sync"
@@ -1037,4 +1042,153 @@ func VerifGMClientCertDigest(transcript []byte) []byte {
 	fh := newFinishedHashGM(verifAnySuite(GMTLS_ECC_SM4_CBC_SM3))
 	fh.Write(transcript)
 	return fh.client.Sum(nil)
+}
+
+// ---------------------------------------------------------------------------
+// 8. ecdheKeyAgreement (TLS ECDHE) ServerKeyExchange at byte level (C15 PE cases)
+// ---------------------------------------------------------------------------
+
+// verifCounterRand is a fixed, deterministic byte stream (Config.Rand of the
+// genuine ServerKeyExchange messages: they are part of case lines).
+type verifCounterRand struct{ s uint64 }
+
+func (r *verifCounterRand) Read(p []byte) (int, error) {
+	for i := range p {
+		r.s += 0x9E3779B97F4A7C15
+		z := r.s
+		z = (z ^ (z >> 30)) * 0xBF58476D1CE4E5B9
+		z = (z ^ (z >> 27)) * 0x94D049BB133111EB
+		p[i] = byte(z ^ (z >> 31))
+	}
+	return len(p), nil
+}
+
+// verifDetECDSA signs deterministically (nonce derived from key and digest), so that
+// a genuine ECDSA ServerKeyExchange is the same byte string in every run.
+type verifDetECDSA struct{ *ecdsa.PrivateKey }
+
+func (k verifDetECDSA) Sign(_ io.Reader, digest []byte, _ crypto.SignerOpts) ([]byte, error) {
+	curve := k.Curve
+	n := curve.Params().N
+	e := new(big.Int).SetBytes(digest)
+	if excess := len(digest)*8 - n.BitLen(); excess > 0 {
+		e.Rsh(e, uint(excess))
+	}
+	for ctr := byte(0); ; ctr++ {
+		h := sha256.Sum256(append(append(k.D.Bytes(), digest...), ctr))
+		nonce := new(big.Int).SetBytes(h[:])
+		nonce.Mod(nonce, n)
+		if nonce.Sign() == 0 {
+			continue
+		}
+		x, _ := curve.ScalarBaseMult(nonce.Bytes())
+		r := new(big.Int).Mod(x, n)
+		if r.Sign() == 0 {
+			continue
+		}
+		s := new(big.Int).Mul(r, k.D)
+		s.Add(s, e)
+		s.Mul(s, new(big.Int).ModInverse(nonce, n))
+		s.Mod(s, n)
+		if s.Sign() == 0 {
+			continue
+		}
+		return asn1.Marshal(ecdsaSignature{r, s})
+	}
+}
+
+var verifKXKeys = struct {
+	once  sync.Once
+	rsa   *rsa.PrivateKey
+	ecdsa verifDetECDSA
+	sm2   *sm2.PublicKey
+}{}
+
+// the RSA test key of websvr/certs/rsa_sign_key.pem (public test material of this repository)
+const (
+	verifRSAP = "fd397758446cd958cd5b4d5ce724397f3df22a1a8780167d28e0dab0b757e3fe1bd7c65189074855108c4a3869d08af2620907efc5fa7ca21dcc0dbbe8c36900ade6702bba748e9df2281ee79038730c92dcfdb76f616d541f53007509fb91777d71c08d7601cccb03342919a9e74f463d7cf863321df315d397aacc4cd1fe9f"
+	verifRSAQ = "c12c92f4d0e2af595055c8c3cb8205f1c8ecb854f747529b532dbd30e08171377845a07fbd312ce270999696fdc01049a9006ee42087e703b173e5afa0489ca73adcc2a5814e652782e9551ee9ae6fc55e6a14c766c6cf5c395cea15e0fa45e29a8d12acd1871b3efa681120c690fc2a7a118815cbe4a517918552785b53e855"
+)
+
+func verifKXInit() {
+	verifKXKeys.once.Do(func() {
+		p, _ := new(big.Int).SetString(verifRSAP, 16)
+		q, _ := new(big.Int).SetString(verifRSAQ, 16)
+		one := big.NewInt(1)
+		phi := new(big.Int).Mul(new(big.Int).Sub(p, one), new(big.Int).Sub(q, one))
+		k := &rsa.PrivateKey{PublicKey: rsa.PublicKey{N: new(big.Int).Mul(p, q), E: 65537}, Primes: []*big.Int{p, q}}
+		k.D = new(big.Int).ModInverse(big.NewInt(65537), phi)
+		k.Precompute()
+		verifKXKeys.rsa = k
+		d := new(big.Int).SetBytes([]byte("gmsm verification harness: fixed P-256 key"))
+		d.Mod(d, elliptic.P256().Params().N)
+		x, y := elliptic.P256().ScalarBaseMult(d.Bytes())
+		verifKXKeys.ecdsa = verifDetECDSA{&ecdsa.PrivateKey{PublicKey: ecdsa.PublicKey{Curve: elliptic.P256(), X: x, Y: y}, D: d}}
+		c := sm2.P256Sm2().Params()
+		verifKXKeys.sm2 = &sm2.PublicKey{Curve: sm2.P256Sm2(), X: c.Gx, Y: c.Gy}
+	})
+}
+
+func verifKXHellos(helloAlgs []uint16, curve uint16) (*clientHelloMsg, *serverHelloMsg) {
+	cr, sr := make([]byte, 32), make([]byte, 32)
+	for i := range cr {
+		cr[i], sr[i] = 0xc1, 0xd2
+	}
+	ch := &clientHelloMsg{vers: VersionTLS12, random: cr}
+	for _, a := range helloAlgs {
+		ch.supportedSignatureAlgorithms = append(ch.supportedSignatureAlgorithms, SignatureScheme(a))
+	}
+	if curve != 0 {
+		ch.supportedCurves = []CurveID{CurveID(curve)}
+	}
+	return ch, &serverHelloMsg{vers: VersionTLS12, random: sr}
+}
+
+// VerifECDHEProcessServerKeyExchange runs (&ecdheKeyAgreement{version: vers, isRSA: isRSA}).processServerKeyExchange
+// with a certificate whose public key is of kind pk ("rsa", "ecdsa" (P-256), "sm2"), fixed hello randoms
+// (32 x c1 / 32 x d2), clientHello.supportedSignatureAlgorithms = helloAlgs and skx.key = key.
+// No recover here.
+func VerifECDHEProcessServerKeyExchange(vers uint16, isRSA bool, pk string, helloAlgs []uint16, key []byte) (errText string, ok bool) {
+	verifKXInit()
+	cert := &x509.Certificate{}
+	switch pk {
+	case "rsa":
+		cert.PublicKey = &verifKXKeys.rsa.PublicKey
+	case "ecdsa":
+		cert.PublicKey = &verifKXKeys.ecdsa.PublicKey
+	case "sm2":
+		cert.PublicKey = verifKXKeys.sm2
+	default:
+		cert.PublicKey = verifOtherKey{}
+	}
+	ch, sh := verifKXHellos(helloAlgs, 0)
+	ka := &ecdheKeyAgreement{version: vers, isRSA: isRSA}
+	err := ka.processServerKeyExchange(&Config{}, ch, sh, cert, &serverKeyExchangeMsg{key: append([]byte(nil), key...)})
+	if err != nil {
+		return err.Error(), false
+	}
+	return "", true
+}
+
+// VerifECDHEGenerateServerKeyExchange makes a genuine ServerKeyExchange key for the same
+// fixed randoms with ecdheKeyAgreement.generateServerKeyExchange: the fixed private key of kind
+// pk ("rsa" or "ecdsa"), curve offered by the client hello, a fixed deterministic Config.Rand.
+func VerifECDHEGenerateServerKeyExchange(vers uint16, isRSA bool, pk string, curve uint16, helloAlgs []uint16) (key []byte, err error) {
+	verifKXInit()
+	var c Certificate
+	switch pk {
+	case "rsa":
+		c.PrivateKey = verifKXKeys.rsa
+	case "ecdsa":
+		c.PrivateKey = verifKXKeys.ecdsa
+	default:
+		return nil, errors.New("verif: no private key of that kind")
+	}
+	ch, sh := verifKXHellos(helloAlgs, curve)
+	ka := &ecdheKeyAgreement{version: vers, isRSA: isRSA}
+	skx, err := ka.generateServerKeyExchange(&Config{Rand: &verifCounterRand{s: uint64(vers)<<16 | uint64(curve)}}, &c, &c, ch, sh)
+	if err != nil {
+		return nil, err
+	}
+	return skx.key, nil
 }
